@@ -401,6 +401,7 @@ def _gen_mmi(case):
                 xs[i] = float(ax.integers(-1, shape[1] + 1)) + float(ax.choice([0.0, 0.5]))
                 ys[i] = float(ax.integers(-1, shape[0] + 1)) + float(ax.choice([0.0, 0.5]))
         axes['2_parity_exact_k_and_half'] = 1
+        int_pos = False
     if n and ax.random() < 0.15 and row_shape(0) is not None:
         # (ix)/(viii) the window overlaps the image by exactly its last column / row, at each of the four edges:
         # ceil(pos - s/2) == n - 1 (right / top) or ceil(pos - s/2) + s == 1 (left / bottom)
@@ -422,6 +423,7 @@ def _gen_mmi(case):
                 else:
                     xs[i] = float(ax.uniform(0, shape[1] - 1))
                 axes['2_window_on_last_pixel_' + edge] = 1
+                int_pos = False
 
     # parameter values per row
     pvals = {x_name: xs, y_name: ys}
